@@ -3,10 +3,11 @@
    entries in Z[i, sqrt 2] with one common factor 1/sqrt n per object), which the harness compares entry by entry with what
    quara generates under each name.  Finite tables are decided by vm_compute (dimension and table explicit in the statement);
    tensor products of arbitrary length by induction. *)
+From Coq Require Import String.
 From Coq Require Import ZArith List Bool Arith Sorting.Sorted Sorting.Permutation.
 From QV.Core Require Import OF Sums Mat C17_Z8.
-From QV.Model Require Import C17_Tables C17_Permute.
-From QV.Proofs Require Import C17_Tables C17_Bases9 C17_Eval C17_Permute.
+From QV.Model Require Import C17_Tables C17_Permute C17_Names C17_Ham3q.
+From QV.Proofs Require Import C17_Tables C17_Bases9 C17_Eval C17_Permute C17_Names C17_Ham3q.
 Import ListNotations.
 
 (* every textbook action triple (gate, input state, output state) holds in the table algebra, as equality of density operators:
@@ -97,6 +98,39 @@ Theorem C17_permute_coded_refuted : exists ids v, NoDup ids /\ length v = length
 Proof. exact permute_coded_refuted. Qed.
 Print Assumptions C17_permute_coded_refuted.
 
+(* ---- the NAMED catalogues (Model/C17_Names.v: every name is printed from its table code; the harness compares these name lists with
+   quara's get_*_names* functions and every generated object with the table stored next to its name).  Names of one catalogue are pairwise
+   different; every named state (749) is normalised; every named POVM on 1, 2 qubits and 1, 2 qutrits (87) sums to the identity. *)
+Theorem C17_catalogue_names_distinct :
+  (forall sys, (sys < 5)%nat -> NoDup (map fst (cat_states sys))) /\
+  (forall sys, (sys < 5)%nat -> NoDup (map fst (cat_povms sys))) /\
+  (forall sys, (sys < 4)%nat -> NoDup (map fst (cat_gates sys))) /\
+  NoDup (map fst cat_mprocs) /\ NoDup (map fst cat_gates_2qutrit_single).
+Proof. exact catalogue_names_distinct. Qed.
+Print Assumptions C17_catalogue_names_distinct.
+
+Theorem C17_named_states_normalised : forall sys, (sys < 5)%nat -> Forall (fun e => state_normalised (state_tbl (snd e))) (cat_states sys).
+Proof. exact named_states_normalised. Qed.
+Print Assumptions C17_named_states_normalised.
+
+Theorem C17_named_povms_complete : forall sys, (sys < 5)%nat -> sys <> 2%nat -> Forall povm_name_complete (cat_povms sys).
+Proof. exact named_povms_complete. Qed.
+Print Assumptions C17_named_povms_complete.
+
+(* formal Hamiltonians of the translated name parser (coq/gen/C17_Equiv.v) denote the 2-qutrit tables: if the literal base matrices of a
+   method table are the tables base3, the formal sum  sum_k (k pi/4) B(b0) (x) B(b1)  over ANY list of terms denotes (pi/4) * ham2t terms *)
+Theorem C17_formal_hamiltonian_denotes_table : forall tbl, lits_are_tables tbl ->
+  forall terms, Forall good_term terms -> meq 9 9 (denote4 tbl (map expected_term terms)) (ham2t terms).
+Proof. exact denote4_expected. Qed.
+Print Assumptions C17_formal_hamiltonian_denotes_table.
+
+(* toffoli / fredkin, all six id orders: the role-ordered Pauli sum M = 8 H / pi satisfies M M = -8 M, M = M^dagger and 4 U = 4 I + M with U the
+   table gate, i.e. H = -pi P for a projector P and U = I - 2 P.  _partial: the step exp(-iH) = exp(i pi P) = I - 2 P (true for every projector)
+   is analysis and is NOT proved; the harness compares exp(-iH) with U numerically. *)
+Theorem C17_toffoli_fredkin_hamiltonians_partial : forall k ids, (k < 2)%nat -> In ids perms3 -> ham3q_ok k ids.
+Proof. exact toffoli_fredkin_hamiltonians_are_projectors. Qed.
+Print Assumptions C17_toffoli_fredkin_hamiltonians_partial.
+
 (* non-vacuity: the Hadamard table maps the table z0 to the table x0; the T gate (entries outside Q[i]) is unitary;
    the 2-qutrit normalised generalized Gell-Mann basis is one of the instances *)
 Example C17_example :
@@ -109,3 +143,10 @@ Proof. split; [apply triple_holdsb_spec; vm_compute; reflexivity|]. split; [appl
 Example C17_permute_example :
   permute_fixed [1; 2; 0]%nat [0; 0; 1]%nat = [1; 0; 0]%nat /\ permute_fixed [7; 2; 5]%nat [3; 0; 1]%nat = [0; 1; 3]%nat.
 Proof. split; reflexivity. Qed.
+(* the catalogue really contains the names; the cross-shaped part used by the quick tier contains unequal-angle names *)
+Example C17_names_example :
+  find (fun e => String.eqb (fst e) "x0_y1_a"%string) (cat_states 2) = Some ("x0_y1_a"%string, SQ [0; 3; 6]%nat) /\
+  find (fun e => String.eqb (fst e) "01x3_z2"%string) (cat_povms 4) = Some ("01x3_z2"%string, [4; 7]%nat) /\
+  find (fun e => String.eqb (fst e) "01xi90_i12y180"%string) cat_gates_2qutrit = Some ("01xi90_i12y180"%string, [(1, 0, 1); (0, 5, 2)]%nat) /\
+  find (fun e => String.eqb (fst e) "i01x90_12y12y180"%string) cat_gates_2qutrit_quick = Some ("i01x90_12y12y180"%string, [(0, 1, 1); (5, 5, 2)]%nat).
+Proof. repeat split; vm_compute; reflexivity. Qed.
